@@ -306,6 +306,34 @@ Theorem C19_serialize_error_iff :
 Proof. exact serialize_error_iff. Qed.
 Print Assumptions C19_serialize_error_iff.
 
+(* one transport string decoded several times: whatever the caller (or the called function)
+   did in place to the results of earlier decodes -- append to the argument list or to a list
+   nested in it, set / delete a keyword, change a dict nested in the keywords, change the state
+   of the decoded callable -- EVERY decode returns the encoded original: decoding is a function
+   of the string alone and results of separate decodes share nothing.  In the model the results
+   handed out are kept in an explicit store that the mutations act on; since the decoder of the
+   code never reads that store the statement is immediate -- the correspondence (clause
+   decode_independent_of_earlier_results on the real get_func_attr) carries the weight. *)
+Theorem C19_decode_independent_of_earlier_results :
+  forall (x : dres) (ops : list rop) (store : list dres),
+    Forall (eq x) (snd (run_fresh x ops store))
+    /\ List.length (snd (run_fresh x ops store))
+       = List.length (filter (fun o => match o with RDecode => true | _ => false end) ops)
+    /\ forall store', snd (run_fresh x ops store) = snd (run_fresh x ops store').
+Proof.
+  exact (fun x ops store => conj (run_fresh_returns x ops store)
+                                 (conj (run_fresh_count x ops store) (run_fresh_store_irrelevant x ops store))).
+Qed.
+Print Assumptions C19_decode_independent_of_earlier_results.
+
+(* the statement is not empty: a decoder that keeps the decoded object per string and hands
+   out a shallow copy of the arguments and the kept keyword dict violates it (decode, delete
+   kwargs['comm'] as the raptor worker does after the call, decode again) *)
+Theorem C19_caching_decoder_refuted :
+  exists (x : dres) (ops : list rop), ~ Forall (eq x) (run_cached x ops).
+Proof. exact run_cached_refuted. Qed.
+Print Assumptions C19_caching_decoder_refuted.
+
 (* something that is not callable is refused *)
 Theorem C19_envelope_not_callable :
   forall (func blob wire : Type) so dobj sb db fn args kw,
